@@ -45,7 +45,7 @@ type Revappend struct {
 // Call the function with the arguments provided.
 func (f *Revappend) Call(s *slip.Scope, args slip.List, depth int) slip.Object {
 	slip.CheckArgCount(s, depth, f, args, 2, 2)
-	list, ok := args[0].(slip.List)
+	list, ok := listArg(args[0])
 	if !ok {
 		slip.TypePanic(s, depth, "list", args[0], "list")
 	}
